@@ -188,6 +188,35 @@ Definition dqueue_recv (v : variant) (d : dqueue) : res (rres * dqueue) :=
   | DErr e => Ok (RErr e, d1)
   end.
 
+(* mpt_queue_peek (with decoder): preview of the message being decoded.  The decoder is called in
+   peek mode (sourcelen = 0) on the ONE fragment that remains after skipping min(curr, pos) bytes;
+   returns (error | decoded length so far, the first [mx] decoded bytes when a target is given) *)
+Definition dqueue_peek (v : variant) (d : dqueue) (mx : nat) (dst : bool) : res (eres * list byte * dqueue) :=
+  let q := dq_q d in
+  let st := dq_st d in
+  let len := qlen q in
+  if len =? 0 then Ok (EErr MissingData, [], d) else
+  let used0 := if qmax q - qoff q <? len then qmax q - qoff q else len in
+  let off := Nat.min (dcurr st) (dpos st) in
+  if len <? off then Ok (EErr MissingData, [], d) else
+  (* mpt_message_read(&msg, off, 0): the fragment that is current afterwards *)
+  let fl := if off <? used0 then used0 - off else len - off in
+  let frag := slice off fl (contents q) in
+  let st0 := mkd (dcode st) (dpos8 st) (dcurr st - off) (dpos st - off) (dlen st) (dmsg st) in
+  let '(r, st1, frag') := dec_call_res v st0 frag [fl] [(qoff q + off) mod 16] true in
+  do q' <- (match qset q off frag' with Ok x => Ok x | Err _ => Ok q | Fault => Fault end);
+  let pos1 := dpos st1 in
+  let st2 := mkd (dcode st1) (dpos8 st1) (dcurr st1 + off) (pos1 + off) (dlen st1) (dmsg st1) in
+  let dl := dlen st1 in
+  let failed := match r with DErr _ | DFault => true | _ => false end in
+  match r with
+  | DFault => Fault
+  | _ =>
+    if negb dst then Ok (EInt dl, [], mkdq q' st2)
+    else if failed then Ok (EInt dl, repeat 238%N (Nat.min dl mx), mkdq q' st2)   (* target left untouched *)
+    else Ok (EInt (Nat.min dl mx), slice pos1 (Nat.min dl mx) frag', mkdq q' st2)
+  end.
+
 (* the delivered message: mpt_message_get + mpt_message_read *)
 Definition dqueue_message (d : dqueue) : option (list byte) :=
   match dmsg (dq_st d) with
